@@ -85,7 +85,8 @@ def offenders_of(ctx, tag, lang, outcome):
 
 
 def object_text(outcome, pkg, name):
-    m = re.search(r'\("%s", \(mkObject "%s".*?"%s" "%s"\)\)' % (re.escape(name), re.escape(name), re.escape(pkg), re.escape(name)), outcome)
+    # the object ends with `<type>) "pkg" "name"))`; a self reference `(TRef A0 "pkg" "name")` is not preceded by `) `
+    m = re.search(r'\("%s", \(mkObject "%s".*?\) "%s" "%s"\)\)' % (re.escape(name), re.escape(name), re.escape(pkg), re.escape(name)), outcome)
     return m.group(0) if m else ""
 
 
@@ -129,7 +130,7 @@ def input_features(job):
     return feats
 
 
-def cause_of(lang, violation, objtext, name, input_names, input_alias_names, feats):
+def cause_of(lang, violation, objtext, name, input_names, input_alias_names, feats, intext=""):
     """root cause of a normal-form violation, read off the input's shape and the offending object
     (this is what identifies a known finding)"""
     created = name not in input_names
@@ -148,8 +149,12 @@ def cause_of(lang, violation, objtext, name, input_names, input_alias_names, fea
     if violation == "optional-field-not-nullable":
         if re.search(r'mkField "[^"]*" \[[^\]]*\] \(TScalar A0 KAny DNil \[\]\) false', objtext):
             return "any-from-undiscriminated-union"
-        if lang == "java" and (name in input_alias_names or re.search(r'mkField "[^"]*" \[[^\]]*\] \(TRef A0 "[^"]*" "[^"]*"\) false', objtext)):
+        if lang == "java" and (name in input_alias_names or re.search(r'mkField "[^"]*" \[[^\]]*\] \((?:TRef (?:A0|\{\| nullable := false.*?\|\}) "[^"]*" "[^"]*"|TArray A0 \([^()]*\))\) false', objtext)):
             return "field-rewritten-by-remove-intersections"
+        # a field that was a union in the input and is a bare, non-nullable scalar now
+        for fm in re.finditer(r'mkField ("[^"]*") \[[^\]]*\] \(TScalar (?:A0|\{\| nullable := false[^|]*\|\}) K\w+ DNil \[\]\) false', objtext):
+            if re.search(r'mkField %s \[[^\]]*\] \(TDisj ' % re.escape(fm.group(1)), intext):
+                return "single-kind-scalar-union-collapsed"
         if "single-kind-scalar-union" in feats and re.search(r'mkField "[^"]*" \[[^\]]*\] \(TScalar (A0|\{\| nullable := false[^|]*\|\}) K\w+ DNil \[\]\) false', objtext):
             return "single-kind-scalar-union-collapsed"
         if created:
@@ -202,12 +207,13 @@ def run(ctx, verdict, replay=None, model_ok=True):
         pre = passlib.PREAMBLE % "Model.Spec06" + "Definition cases : list nfcase :=\n%s.\n" % cases
         r = core.coq_eval_lists(ctx, "cases_C06_%d" % k, pre, [
             ("NF", "indices case_nf_bad cases"), ("MM", "indices case_chain_mismatch cases"),
-            ("UM", "indices case_chain_unmodelled cases"), ("FL", "indices case_chain_failed cases")])
+            ("UM", "indices case_chain_unmodelled cases"), ("FL", "indices case_chain_failed cases"),
+            ("AL", "indices (fun c => andb (case_chain_mismatch c) (case_chain_alias c)) cases")])
         return {kk: [ids[x] for x in v] for kk, v in r.items()}
 
     parts = core.parallel(do, list(range(len(shards))))
-    ev = {k: sorted(x for p in parts for x in p[k]) for k in ("NF", "MM", "UM", "FL")}
-    ctx.log("coq evaluated: nf_bad=%d mismatch=%d unmodelled=%d chain_failed=%d" % (len(ev["NF"]), len(ev["MM"]), len(ev["UM"]), len(ev["FL"])))
+    ev = {k: sorted(x for p in parts for x in p[k]) for k in ("NF", "MM", "UM", "FL", "AL")}
+    ctx.log("coq evaluated: nf_bad=%d mismatch=%d (pointer-sharing-sensitive: %d) unmodelled=%d chain_failed=%d" % (len(ev["NF"]), len(ev["MM"]), len(ev["AL"]), len(ev["UM"]), len(ev["FL"])))
     explained = set()
     budget = 40
     for i in sorted(ev["NF"], key=lambda i: len(json.dumps(jobs[i]))):
@@ -220,12 +226,13 @@ def run(ctx, verdict, replay=None, model_ok=True):
         offs = offenders_of(ctx, str(i), jobs[i]["lang"], results[i]["outcome"]) or \
             [("?", "?", v) for v in violations_of(ctx, str(i), jobs[i]["lang"], results[i]["outcome"])] or [("?", "?", "unknown")]
         for pkg, name, v in offs:
-            cause = cause_of(jobs[i]["lang"], v, object_text(results[i]["outcome"], pkg, name), name, input_names, alias_names, feats)
+            cause = cause_of(jobs[i]["lang"], v, object_text(results[i]["outcome"], pkg, name), name, input_names, alias_names, feats,
+                             object_text(results[i]["input"], pkg, name))
             verdict.propfail({"lang": jobs[i]["lang"], "violation": v, "cause": cause},
                              {"job": jobs[i], "offending_object": "%s.%s" % (pkg, name), "observed_outcome": results[i]["outcome"][:5000],
                               "predicate": 'nf_violations "%s" (output of the real chain) = []  (Model/NF.v)' % jobs[i]["lang"]})
         explained.add(i)
-    explained.update(ev["NF"])
+    explained = set(ev["AL"])   # pointer-sharing-sensitive sequences: the functional model does not decide them
     unexplained = [{"job": jobs[i], "observed": results[i]["outcome"][:3000]} for i in ev["MM"] if i not in explained]
     langs = {}
     distinct, nontriv = set(), 0
@@ -249,6 +256,7 @@ def run(ctx, verdict, replay=None, model_ok=True):
         "chain_runs_that_failed_or_crashed_not_judged_here": len(ev["FL"]) + (len(results) - len(idx)),
         "cases_with_unmodelled_pass": len(ev["UM"]),
         "mismatches_model_vs_impl": len(ev["MM"]),
+        "mismatches_on_pointer_sharing_sensitive_sequences_not_judged": len(ev["AL"]),
         "nf_violation_cases": len(ev["NF"]),
         "traces_validated_against_impl": len(idx) - len(ev["MM"]) - len(ev["UM"]),
     }
